@@ -129,6 +129,11 @@ func respaceGo(r *fw.Rand, src []byte) []byte {
 
 // c14Features finds Go constructs that XGo is known not to read like Go (used only to name the site of a failure).
 func c14Features(f *goast.File) (generics, union, dollar, blankCall bool) {
+	g, u, d, bc, _ := c14Features2(f)
+	return g, u, d, bc
+}
+
+func c14Features2(f *goast.File) (generics, union, dollar, blankCall, blankIndex bool) {
 	goast.Inspect(f, func(n goast.Node) bool {
 		switch x := n.(type) {
 		case *goast.FuncType:
@@ -144,6 +149,14 @@ func c14Features(f *goast.File) (generics, union, dollar, blankCall bool) {
 		case *goast.CallExpr:
 			if x.Lparen != x.Fun.End() {
 				blankCall = true // Go allows blanks between callee and '(' ; XGo reads a command-style call
+			}
+		case *goast.IndexExpr:
+			if x.Lbrack != x.X.End() {
+				blankIndex = true // `m [k] = v`: XGo reads the command-style call m([k] = v)
+			}
+		case *goast.SliceExpr:
+			if x.Lbrack != x.X.End() {
+				blankIndex = true
 			}
 		case *goast.UnaryExpr:
 			if x.Op == gotoken.TILDE {
@@ -165,8 +178,27 @@ func c14Features(f *goast.File) (generics, union, dollar, blankCall bool) {
 	return
 }
 
+// c14TightSend: a send statement written `ch <-v` (blank before the arrow, none after it). gofmt never writes it;
+// XGo reads `ch <-v` as the command-style call ch(<-v), like `f -x` (whitespace decides, by design).
+func c14TightSend(f *goast.File, fset *gotoken.FileSet, src []byte) bool {
+	found := false
+	goast.Inspect(f, func(n goast.Node) bool {
+		if s, ok := n.(*goast.SendStmt); ok {
+			a := fset.Position(s.Arrow).Offset
+			if a > 0 && a+2 < len(src) && (src[a-1] == ' ' || src[a-1] == '\t') && src[a+2] != ' ' && src[a+2] != '\t' && src[a+2] != '\n' && src[a+2] != '\r' {
+				found = true
+			}
+		}
+		return true
+	})
+	return found
+}
+
 func c14Classify(f *goast.File, generic string) string {
-	g, u, d, bc := c14Features(f)
+	g, u, d, bc, bi := c14Features2(f)
+	if bi && !u && !g && !d && !bc && (strings.HasPrefix(generic, "goparse:tree-differs") || strings.HasPrefix(generic, "goparse:rejected")) {
+		return "goparse:index-with-blank-before-bracket"
+	}
 	if bc && strings.HasPrefix(generic, "goparse:tree-differs") && !u && !g && !d {
 		return "goparse:tree-differs:call-with-blank-before-parenthesis"
 	}
@@ -232,6 +264,9 @@ func (p *c14) Run(c fw.Case, r *fw.Rec) {
 		site := "goparse:tree-differs:" + c14Site(d)
 		if strings.Contains(d, "vs ParenExpr") && regexp.MustCompile(`\.Args\[\d+\]: `).MatchString(d) {
 			site = "goparse:tree-differs:call-with-blank-before-parenthesis"
+		}
+		if strings.Contains(d, "SendStmt vs ExprStmt") && c14TightSend(gf, gfset, src) {
+			site = "goparse:tree-differs:send-with-blank-before-arrow-only"
 		}
 		r.Fail(c14Classify(gf, site), "tree of %s differs from go/parser's: %s\n%s", name, d, c14Context(gfset, gf, d, src))
 		return
